@@ -113,6 +113,44 @@ func runC18(c *Ctx) error {
 			w.Count("presentation.url-bare")
 		}
 	}
+	// ---- rule texts of which one is contained in another, given without messages (Var takes them as separate
+	// arguments, the others as one comma-separated text): every one is evaluated
+	for _, x := range []struct {
+		val   interface{}
+		rules []string
+	}{
+		{"abc", []string{"ints", "int"}}, {"abc", []string{"int", "ints"}}, {40, []string{"le=30", "le=3"}}, {40, []string{"le=3", "le=30"}},
+		{"abc", []string{"to=15~20", "to=5~20", "oto=15~20"}}, {7, []string{"ge=90", "ge=9", "ge=90"}}, {"abcd", []string{"noeq=4", "eq=5", "eq=5"}},
+	} {
+		rv := reflect.ValueOf(x.val)
+		tag := strings.Join(x.rules, ",")
+		mk := func(path string) string {
+			es := make([]expE, len(x.rules))
+			for j := range es {
+				es[j] = expE{"D", path, ""}
+			}
+			return "SExpect true " + galExps(es)
+		}
+		addr := func(call *walkCall, path, pres string) {
+			term, desc := call.caseTerm([]string{mk(path), "SNoPanic"})
+			desc["presentation"] = pres
+			desc["rules"] = tag
+			w.Add(term, desc, fmt.Sprintf("contained-rules:%s:%s", pres, tag))
+			w.Count("presentation.contained-" + pres)
+		}
+		addr(&walkCall{Entry: "var", VarRules: x.rules, Src: x.val}, "", "var")
+		addr(&walkCall{Entry: "var", VarRules: []string{tag}, Src: x.val}, "", "var-one-text")
+		st := reflect.StructOf([]reflect.StructField{{Name: "F", Type: rv.Type(), Tag: tagOf(tag)}})
+		sv := reflect.New(st).Elem()
+		sv.Field(0).Set(rv)
+		addr(&walkCall{Entry: "struct", Src: sv.Addr().Interface()}, "F", "struct")
+		mv := reflect.MakeMap(reflect.MapOf(reflect.TypeOf(""), rv.Type()))
+		mv.SetMapIndex(reflect.ValueOf("k"), rv)
+		addr(&walkCall{Entry: "map", Rules: map[string]string{"k": tag}, Src: mv.Interface()}, "map[k]", "map")
+		if s, ok := x.val.(string); ok {
+			addr(&walkCall{Entry: "url", Rules: map[string]string{"k": tag}, Src: "http://h.example/a?k=" + s}, "k", "url")
+		}
+	}
 	// ---- zero values: every rule other than required is skipped, through every presentation
 	for _, sp := range specimens {
 		rv := reflect.ValueOf(sp.val)
